@@ -135,6 +135,21 @@ def r2(rr, repo):
         ok = isinstance(v, ast.BinOp) and isinstance(v.op, ast.Add) and isinstance(v.right, ast.Subscript) and U(v.right.value) == src \
             and isinstance(v.right.slice, ast.Slice) and v.right.slice.upper is None and U(v.right.slice.lower) == f'len({idname})'
         rr.ob('the rewrite appends everything of the original text after the id (source[len(id):])', ok, cmod, n, witness=U(v), key='suffix')
+    # the per-filter cache of resolved addresses holds bare addresses: what is stored under an id must not depend on the
+    # text of the source that happened to reference it first (its ;topic / !opt / ? suffix would be glued to every later one)
+    srcs_name = 'sources'
+    caches = {U(c.func.value) for c in q.calls_in(pf) if isinstance(c.func, ast.Attribute) and c.func.attr == 'get' and c.args and
+              (U(c.args[0]) == idname or (isinstance(c.args[0], ast.NamedExpr) and c.args[0].target.id == idname)) and
+              isinstance(parent(c), ast.NamedExpr) and any(isinstance(v.left, ast.Name) and v.left.id == parent(c).target.id for n in rewrites for v in [n.value] if isinstance(v, ast.BinOp))}
+    if len(caches) != 1:
+        raise Unresolved(f'{CLI}: cannot identify the id -> resolved address cache of parse_filters ({sorted(caches)})')
+    cache = caches.pop()
+    cstores = [n for n in walk_scope(pf) if isinstance(n, ast.Assign) and any(isinstance(t, ast.Subscript) and U(t.value) == cache for t in n.targets)]
+    rr.floor(f'stores into the address cache {cache}', len(cstores), 2, cmod, pf)
+    for n in cstores:
+        names = {x.id for x in ast.walk(n.value) if isinstance(x, ast.Name)}
+        rr.ob(f'what is cached as the resolved address of a filter ({cache}[...]) does not contain the referencing source text or its suffix', not ({src, srcs_name} & names), cmod, n,
+              witness=U(n.value)[:160], key='cache-bare')
     lookups = [c for c in q.calls_in(pf) if isinstance(c.func, ast.Attribute) and c.func.attr == 'get' and c.args and (U(c.args[0]) == idname or (isinstance(c.args[0], ast.NamedExpr) and c.args[0].target.id == idname))]
     rr.ob('the id that is looked up is the id whose length is cut off', len(lookups) >= 2, cmod, pf, witness=f'{len(lookups)} lookups by {idname}', key='same-id')
     passthru = [n for n in walk_scope(pf) if isinstance(n, ast.If) and 'is_mq_addr(source)' in U(n.test) and any(isinstance(b, ast.Continue) for b in n.body)]
